@@ -4,7 +4,7 @@ From Coq Require Import ZArith QArith List Bool.
 From Centro Require Import Base.VecC13 Proofs.VecC13Proofs Model.MeasureC13 Proofs.MeasureC13Proofs Model.EllipseCoordsC13 Proofs.EllipseC13Proofs
   Proofs.PadC13Proofs Proofs.TranslateC13Proofs Proofs.EllipseRowsC13.
 From Centro Require Model.Circle Model.CircleVec Model.Feret Proofs.CircleVecProofs Proofs.CircleVecStep Model.MecFeretC13 Proofs.MecFeretC13Proofs
-  Spec.HullSpec Spec.MecSpec Spec.FeretSpec Spec.FeretBrute Proofs.OwnRowsC13 Proofs.PolygonDiscC13 Proofs.EndToEndC13 Proofs.MecVecOwnerC13 Proofs.HullBoundC13.
+  Spec.HullSpec Spec.MecSpec Spec.FeretSpec Spec.FeretBrute Proofs.OwnRowsC13 Proofs.PolygonDiscC13 Proofs.EndToEndC13 Proofs.MecVecOwnerC13 Proofs.MecVecInvC13 Proofs.HullBoundC13.
 From Centro Require Proofs.HullGuard Model.Hull Proofs.HullBatch Model.HullAreaC13 Proofs.HullAreaC13Proofs Model.MedianC18 Spec.SpecC18 Proofs.MedianC13Proofs Model.IndexesC18 Proofs.IndexesC18Proofs.
 Import ListNotations.
 Open Scope Z_scope.
@@ -385,41 +385,47 @@ Theorem C13_feret_end_to_end : forall ijv indexes r,
 Proof. exact EndToEndC13.feret_end_to_end. Qed.
 Print Assumptions C13_feret_end_to_end.
 
-(* ---- the vectorised loop (C14's Model/CircleVec.v) ---- *)
+(* ---- the vectorised loop (C14's Model/CircleVec.v) under the invariant that holds for EVERY call:
+   an object that is still active (keep_me) has its S0 / S1 among its own rows ---- *)
 
-(* owner is preserved by a pass: every object's S0 / S1 stay among its own rows *)
-Theorem C13_mec_vec_owner_preserved : forall rows app n st,
-  (forall k', 0 <= k' < Z.of_nat n -> CircleVecStep.owner app st k') ->
-  forall k, 0 <= k < Z.of_nat n -> CircleVecStep.owner app (CircleVec.vstep rows app n st) k.
-Proof. exact MecVecOwnerC13.vstep_owner. Qed.
-Print Assumptions C13_mec_vec_owner_preserved.
+(* every call starts in the invariant (repeat-free non-negative request list, one block per request) *)
+Theorem C13_mec_vec_init_inv : forall indexes blocks,
+  NoDup indexes -> (forall j, In j indexes -> 0 <= j) -> length indexes = length blocks ->
+  let t := CircleVec.vec_init indexes blocks in
+  MecVecInvC13.inv (snd (fst t)) (length blocks) (snd t).
+Proof. exact MecVecInvC13.vec_init_inv. Qed.
+Print Assumptions C13_mec_vec_init_inv.
 
-(* Full: m passes keep two global states in agreement on object k's own entries, whatever the other
-   objects' entries are - from the invariant of the INITIAL states alone *)
+(* ... and a pass preserves it *)
+Theorem C13_mec_vec_inv_preserved : forall rows app n st,
+  MecVecInvC13.inv app n st -> MecVecInvC13.inv app n (CircleVec.vstep rows app n st).
+Proof. exact MecVecInvC13.vstep_inv. Qed.
+Print Assumptions C13_mec_vec_inv_preserved.
+
+(* after a pass, object k's entries are those its own decision alone produces from its own entries *)
+Theorem C13_mec_vec_own_write : forall rows app n st k,
+  0 <= k < Z.of_nat n -> MecVecInvC13.inv app n st ->
+  CircleVecProofs.agree app k (CircleVec.vstep rows app n st)
+                        (CircleVec.apply_action st k (CircleVec.decide rows app st k)) /\
+  CircleVecStep.samelen (CircleVec.vstep rows app n st) st.
+Proof. exact MecVecInvC13.pass_own'. Qed.
+Print Assumptions C13_mec_vec_own_write.
+
+(* Full: any number of passes keeps two global states in agreement on object k's own entries, whatever
+   the other objects' entries are *)
 Theorem C13_mec_vec_passes_independent : forall rows app n k m st st',
   0 <= k < Z.of_nat n -> CircleVecStep.samelen st st' -> CircleVecProofs.agree app k st st' ->
-  (forall k', 0 <= k' < Z.of_nat n -> CircleVecStep.owner app st k') ->
-  (forall k', 0 <= k' < Z.of_nat n -> CircleVecStep.owner app st' k') ->
+  MecVecInvC13.inv app n st -> MecVecInvC13.inv app n st' ->
   CircleVecProofs.agree app k (MecFeretC13.vsteps rows app n m st) (MecFeretC13.vsteps rows app n m st').
-Proof. exact MecVecOwnerC13.mec_vec_passes_independent_owner. Qed.
+Proof. exact MecVecInvC13.passes_independent_inv. Qed.
 Print Assumptions C13_mec_vec_passes_independent.
 
-(* idle frame: a finished object is not touched by a later pass (so loops of different length agree on it) *)
+(* idle frame: a finished object is not touched by a later pass (loops of different length agree on it) *)
 Theorem C13_mec_vec_idle_frame : forall rows app n st k,
-  0 <= k < Z.of_nat n -> (forall k', 0 <= k' < Z.of_nat n -> CircleVecStep.owner app st k') ->
-  CircleVec.nthz (CircleVec.v_keep st) k false = false ->
+  0 <= k < Z.of_nat n -> MecVecInvC13.inv app n st -> ~ MecVecInvC13.active st k ->
   CircleVecProofs.agree app k (CircleVec.vstep rows app n st) st.
-Proof. exact MecVecOwnerC13.idle_frame. Qed.
+Proof. exact MecVecInvC13.idle_frame'. Qed.
 Print Assumptions C13_mec_vec_idle_frame.
-
-(* the invariant holds initially for every object with at least two hull rows (C14's own_block / own_anti) *)
-Theorem C13_mec_vec_init_owner : forall indexes blocks k l b,
-  NoDup indexes -> (forall j, In j indexes -> 0 <= j) -> length indexes = length blocks ->
-  nth_error indexes k = Some l -> nth_error blocks k = Some b -> (2 <= length b)%nat ->
-  let t := CircleVec.vec_init indexes blocks in
-  CircleVecStep.owner (snd (fst t)) (snd t) (Z.of_nat k).
-Proof. exact MecVecOwnerC13.vec_init_owner. Qed.
-Print Assumptions C13_mec_vec_init_owner.
 
 (* ---- independence from the other labels: the kernel's only non-own input, the sentinel max_i + 1 of the
    lower envelope (max_i = largest row index of the whole call), is irrelevant ---- *)
